@@ -25,4 +25,29 @@ a, b = "<!-- SEEDTABLE BEGIN -->", "<!-- SEEDTABLE END -->"
 i, j = s.index(a), s.index(b)
 s = s[:i + len(a)] + "\n" + table + s[j:]
 open(p, "w").write(s)
-print(len(rows), "rows")
+open(p, "w").write(s)
+# behaviour-preserving changes (benign/*): the check must stay quiet
+brows = []
+bd = os.path.join(V, "benign")
+for d in sorted(os.listdir(bd)) if os.path.isdir(bd) else []:
+    mp = os.path.join(bd, d, "meta.json")
+    if not os.path.exists(mp):
+        continue
+    m = json.load(open(mp))
+    txt = m.get("summary") or ""
+    if not txt:
+        paras = [q.strip().replace("\n", " ") for q in re.split(r"\n\s*\n", m.get("what", "")) if q.strip() and not q.strip().startswith("#")]
+        txt = (paras[0] if paras else "")[:260]
+    verdict = "first run: " + m.get("first_verdict", "")[:200]
+    if m.get("resolution"):
+        verdict += " **Resolution:** " + m["resolution"]
+    if m.get("current_verdict"):
+        verdict += " **Now:** " + m["current_verdict"] + "."
+    brows.append("| `benign/%s` | %s | %s | %s |" % (d, m["property"], txt.replace("|", "/"), verdict.replace("|", "/")))
+btable = "| change | property | what it is (author's words, abridged) | verdict of `bin/check` (quick tier, via `bin/mutcheck`) |\n|---|---|---|---|\n" + "\n".join(brows) + "\n"
+a, b = "<!-- BENIGNTABLE BEGIN -->", "<!-- BENIGNTABLE END -->"
+if a in s:
+    i, j = s.index(a), s.index(b)
+    s = s[:i + len(a)] + "\n" + btable + s[j:]
+    open(p, "w").write(s)
+print(len(rows), "rows;", len(brows), "benign rows")
